@@ -23,7 +23,7 @@ pub fn def() -> PropDef {
                index); oracle: v.to_string() == format!(the same literal, fields bound by name / position), two payload assignments incl. extremes. non-trivial = every (variant, spec) \
                with width > len or precision < len, every placeholder literal; distinct per (program, variant, spec/payload)",
         trusted_base: &["rustc / core::fmt (`<str as Display>` and `format!` are the reference)", "vf-core R-name", "generated constructors"],
-        assumptions: &["interpolated variants are compared under `{}` only (the statement does not say how an outer spec applies to them)"],
+        assumptions: &["interpolated variants under a caller's spec (fill x align x width 0..6 x precision none/0..2 and the 0, + and # flags): the text must be what format! makes of the literal, either unpadded (the spec is ignored) or padded / truncated as a whole like a &str; the statement does not choose between the two, anything else is reported"],
         required_outcomes: &["fixed-unit", "fixed-tuple", "fixed-named", "padded", "truncated", "multibyte-truncated", "named-placeholder", "positional-placeholder", "out-of-order-positional", "escaped-brace-adjacent"],
     }
 }
@@ -255,7 +255,15 @@ fn p2_programs(tier: Tier) -> Vec<Program> {
         NamedField { name: "y".into(), ty: FieldTy::I32, default_with: false },
         NamedField { name: "z".into(), ty: FieldTy::SStr, default_with: false },
     ]);
-    pack("named{x,y,z}", named, literals(&["x", "y", "z"], if th { 3 } else { 2 }, false, th), &mut out);
+    pack("named{x,y,z}", named.clone(), literals(&["x", "y", "z"], if th { 3 } else { 2 }, false, th), &mut out);
+    // the same field named by two placeholders with ANOTHER field's placeholder in between (and back to back)
+    pack(
+        "named{x,y,z} repeated fields",
+        named,
+        ["{x}{y}{x}", "{x}x{y} (x={x})", "<{z}>{y}</{z}>", "{x:>3}..{y:>3} from {x:?}", "{z}{z}{x}{z}", "{y}{x}{y}{x}", "{x}{x:>3}"].iter().map(|s| s.to_string()).collect(),
+        &mut out,
+    );
+    pack("tuple2 repeated indices", Kind::Tuple(vec![FieldTy::I32, FieldTy::SStr]), ["{0}{1}{0}", "{1}{0}{1}{0}", "{0}{0:>4}{1}"].iter().map(|s| s.to_string()).collect(), &mut out);
     pack("named{f}", Kind::Named(vec![NamedField { name: "f".into(), ty: FieldTy::U8, default_with: false }]), literals(&["f"], 2, false, true), &mut out);
     // a field declared with a raw identifier is named by the identifier it stands for (`{type}`), as in format!
     pack(
@@ -379,7 +387,7 @@ fn used_names(l: &str) -> Vec<String> {
 fn render_p2(spec: &EnumSpec) -> String {
     let mut o = String::new();
     o.push_str(&render_enum(spec, &["Debug", "strum::Display"]));
-    o.push_str("pub fn run(ctx: &mut vf_core::Ctx) {\n    let mut obs: Vec<(usize, usize, Result<String, String>, String)> = Vec::new();\n");
+    o.push_str("pub fn run(ctx: &mut vf_core::Ctx) {\n    let mut obs: Vec<(usize, usize, Result<(String, Vec<(String, String)>), String>, String)> = Vec::new();\n");
     for (i, v) in spec.variants.iter().enumerate() {
         let lit_s = lit(v.to_string.as_ref().unwrap());
         for j in 0..2 {
@@ -389,12 +397,12 @@ fn render_p2(spec: &EnumSpec) -> String {
                     let ctor = render_ctor(spec, i, &vals);
                     let used = used_names(v.to_string.as_ref().unwrap());
                     let args: Vec<String> = fs.iter().zip(&vals).filter(|(f, _)| used.iter().any(|u| u == crate::spec::unraw(&f.name))).map(|(f, e)| format!("{} = {}", f.name, e)).collect();
-                    o.push_str(&format!("    obs.push(({i}, {j}, vf_core::guard(|| {ctor}.to_string()), format!({lit}, {args})));\n", i = i, j = j, ctor = ctor, lit = lit_s, args = args.join(", ")));
+                    o.push_str(&format!("    obs.push(({i}, {j}, vf_core::guard(|| match ({ctor}) {{ v => (v.to_string(), vf_core::fmtgrid::fmt_grid(&v, vf_core::props::c17::OUTER_W, vf_core::props::c17::OUTER_P)) }}), format!({lit}, {args})));\n", i = i, j = j, ctor = ctor, lit = lit_s, args = args.join(", ")));
                 }
                 Kind::Tuple(fs) => {
                     let vals: Vec<String> = fs.iter().map(|f| payload_expr(f, j)).collect();
                     let ctor = render_ctor(spec, i, &vals);
-                    o.push_str(&format!("    obs.push(({i}, {j}, vf_core::guard(|| {ctor}.to_string()), format!({lit}, {args})));\n", i = i, j = j, ctor = ctor, lit = lit_s, args = vals.join(", ")));
+                    o.push_str(&format!("    obs.push(({i}, {j}, vf_core::guard(|| match ({ctor}) {{ v => (v.to_string(), vf_core::fmtgrid::fmt_grid(&v, vf_core::props::c17::OUTER_W, vf_core::props::c17::OUTER_P)) }}), format!({lit}, {args})));\n", i = i, j = j, ctor = ctor, lit = lit_s, args = vals.join(", ")));
                 }
                 Kind::Unit => {}
             }
@@ -404,10 +412,36 @@ fn render_p2(spec: &EnumSpec) -> String {
     o
 }
 
-pub fn check_p2(ctx: &mut Ctx, obs: Vec<(usize, usize, Result<String, String>, String)>) {
+/// bounds of the caller's-spec grid applied to interpolated variants
+pub const OUTER_W: usize = 6;
+pub const OUTER_P: usize = 2;
+
+pub fn check_p2(ctx: &mut Ctx, obs: Vec<(usize, usize, Result<(String, Vec<(String, String)>), String>, String)>) {
     let spec = ctx.spec().clone();
     ctx.state();
-    for (i, j, got, want) in obs {
+    for (i, j, got_all, want) in obs {
+        let (got, grid) = match got_all {
+            Ok((s, g)) => (Ok(s), g),
+            Err(m) => (Err(m), Vec::new()),
+        };
+        // The caller's spec on an interpolated variant: the statement fixes the text (what format! makes of the literal) and
+        // says nothing about padding it, so two behaviours are accepted - the spec is ignored (what `format_args!` does), or
+        // it is applied to the whole text as to a &str. Anything else (the spec reaching a FIELD, a sign, zero padding) is
+        // not "as format! renders that literal".
+        if !grid.is_empty() {
+            let as_str = fmt_grid(want.as_str(), OUTER_W, OUTER_P);
+            for ((spec_s, g), (_, b)) in grid.iter().zip(as_str.iter()) {
+                ctx.transition();
+                if g != &want && g != b {
+                    ctx.violation(
+                        "placeholder-outer-spec",
+                        &format!("format!({:?}, v) with to_string = {:?}, payload #{}", spec_s, spec.variants[i].to_string.clone().unwrap_or_default(), j),
+                        &format!("{:?} (spec ignored) or {:?} (applied to the whole text)", want, b),
+                        g,
+                    );
+                }
+            }
+        }
         let v = &spec.variants[i];
         let l = v.to_string.clone().unwrap_or_default();
         ctx.transition();
